@@ -51,6 +51,10 @@ func cwRace(in json.RawMessage, res *vh.Result) error {
 					res.Done(1, 0)
 				}
 			}
+			if err := cwClientResub(variant, round, res); err != nil {
+				res.Drift("C13", fmt.Sprintf("client resubscribe window %s: %v", variant, err), nil)
+				res.Done(1, 0)
+			}
 		}
 	}
 	return nil
@@ -291,6 +295,135 @@ func cwClientRace(variant string, racy bool, round int, res *vh.Result) error {
 	}
 	if racy {
 		res.Distinct("race:" + variant)
+	}
+	res.Sample(replay)
+	res.Done(1, 1)
+	return nil
+}
+
+// cwClientResub: the counterexample of spec/ChanWriter gen_witness.cfg (Add; UnsubBegin; Resub; Add) on a real client,
+// natural gates only. A publication is buffered by the per-channel writer (batch of 2 not full, MaxDelay not elapsed);
+// a server-side Unsubscribe runs and is parked at Broker.PublishLeave, i.e. between deleting c.channels[ch] (where the
+// channel writer must be dropped) and node.removeSubscription; the client subscribes to the channel again; the next
+// publication fills the batch. Judged on the frames: a publication published before the first subscription ended must
+// not be delivered after the second subscribe reply (nor at all after the first subscription's end).
+func cwClientResub(variant string, round int, res *vh.Result) error {
+	const d = 400 * time.Millisecond
+	ch := fmt.Sprintf("resub_%s_%d_%d", variant, vh.Seed(), round)
+	var armed atomic.Bool
+	gate := cl.NewGate()
+	env, err := cl.NewEnv(centrifuge.Config{
+		LogLevel: centrifuge.LogLevelNone,
+		GetChannelBatchConfig: func(string) centrifuge.ChannelBatchConfig {
+			return centrifuge.ChannelBatchConfig{MaxSize: 2, MaxDelay: d}
+		},
+	})
+	if err != nil {
+		return err
+	}
+	gb, err := cl.NewGateBroker(env.Node)
+	if err != nil {
+		return err
+	}
+	gb.OnPublishLeave = func(c string, _ *centrifuge.ClientInfo) {
+		if c == ch && armed.CompareAndSwap(true, false) {
+			gate.Arrive(8 * time.Second)
+		}
+	}
+	env.Node.SetBroker(gb)
+	env.OnSubscribe = func(_ *centrifuge.Client, _ centrifuge.SubscribeEvent, cb centrifuge.SubscribeCallback) {
+		cb(centrifuge.SubscribeReply{Options: centrifuge.SubscribeOptions{EmitJoinLeave: true, EnablePositioning: variant == "pos"}}, nil)
+	}
+	if err := env.Run(); err != nil {
+		return err
+	}
+	defer env.Close()
+	conn, err := env.NewConn("u", centrifuge.ProtocolTypeJSON)
+	if err != nil {
+		return err
+	}
+	defer func() { gate.Release(); conn.Client.Disconnect(); conn.Cancel() }()
+	if conn.Connect() == nil {
+		return fmt.Errorf("connect failed")
+	}
+	subscribe := func() (uint32, error) {
+		id := conn.NextID()
+		conn.Do(&protocol.Command{Id: id, Subscribe: &protocol.SubscribeRequest{Channel: ch}})
+		if r := conn.WaitReply(id, 3*time.Second); r == nil || r.Subscribe == nil {
+			return id, fmt.Errorf("subscribe failed: %v", r)
+		}
+		return id, nil
+	}
+	publish := func(data string) error {
+		var opts []centrifuge.PublishOption
+		if variant == "pos" {
+			opts = append(opts, centrifuge.WithHistory(10, time.Minute))
+		}
+		_, err := env.Node.Publish(ch, []byte(data), opts...)
+		return err
+	}
+	var steps []string
+	if _, err := subscribe(); err != nil {
+		return err
+	}
+	start := time.Now()
+	if err := publish(`{"n":1}`); err != nil {
+		return err
+	}
+	steps = append(steps, "generation 1 subscribed; publication 1 buffered by the channel writer (MaxSize 2, MaxDelay 400 ms)")
+	armed.Store(true)
+	unsubDone := make(chan struct{})
+	go func() {
+		defer close(unsubDone)
+		conn.Client.Unsubscribe(ch)
+	}()
+	if !gate.WaitArrived(3 * time.Second) {
+		return fmt.Errorf("unsubscribe did not reach Broker.PublishLeave")
+	}
+	steps = append(steps, "server-side Unsubscribe: c.channels[ch] deleted, parked at Broker.PublishLeave (before removeSubscription)")
+	sub2, err := subscribe()
+	if err != nil {
+		return err
+	}
+	steps = append(steps, "client subscribed again (generation 2), subscribe reply written")
+	if err := publish(`{"n":2}`); err != nil {
+		return err
+	}
+	inWindow := time.Since(start) < d-50*time.Millisecond
+	steps = append(steps, "publication 2 broadcast to generation 2")
+	gate.Release()
+	select {
+	case <-unsubDone:
+	case <-time.After(3 * time.Second):
+		return fmt.Errorf("Unsubscribe did not return")
+	}
+	steps = append(steps, "Unsubscribe released: removeSubscription, second delWriter skipped (channel subscribed again), unsubscribe push")
+	time.Sleep(d + 100*time.Millisecond)
+	conn.Barrier(2 * time.Second)
+	frames := conn.Frames()
+	desc := cl.DescribeAll(frames)
+	reply2 := -1
+	for i, r := range frames {
+		if r.Id == sub2 && r.Subscribe != nil {
+			reply2 = i
+		}
+	}
+	bad := -1
+	for i, r := range frames {
+		if reply2 >= 0 && i > reply2 && r.Push != nil && r.Push.Channel == ch && r.Push.Pub != nil && strings.Contains(string(r.Push.Pub.Data), `"n":1`) {
+			bad = i
+		}
+	}
+	replay := map[string]any{"variant": variant, "max_size": 2, "max_delay_ms": d.Milliseconds(), "schedule": steps, "frames": desc}
+	if bad >= 0 {
+		res.Violate("C13", "resub:old-publication-in-new-subscription:"+variant,
+			fmt.Sprintf("%s, buffered by the per-channel writer for the first subscription, was delivered after the subscribe reply of the next subscription to the channel (kind %s): %v; schedule: %s",
+				cl.Describe(frames[bad]), variant, desc, strings.Join(steps, "; ")), replay)
+		res.Done(1, 0)
+		return nil
+	}
+	if inWindow {
+		res.Distinct("resub:" + variant)
 	}
 	res.Sample(replay)
 	res.Done(1, 1)
